@@ -34,5 +34,12 @@ struct v_json { char opaque; };
 static inline _Bool v_json_parse_throws(void) { _Bool r; return r; }
 static inline _Bool v_json_contains(const struct v_json *j) { (void)j; _Bool r; return r; }      /* any answer */
 static struct v_json v_json_any;
+#define V_EXC_JSON_TYPE 8
+static inline _Bool v_json_is(const struct v_json *j) { (void)j; _Bool r; return r; }               /* is_object / is_array / ...: any answer */
+static const struct v_json *v_json_obj_asked; static _Bool v_json_obj_answer;     /* ghost: the last is_object() question and its answer */
+static inline _Bool v_json_is_object(const struct v_json *j) { _Bool r; v_json_obj_asked = j; v_json_obj_answer = r; return r; }
+static inline size_t v_json_size(const struct v_json *j) { (void)j; size_t r; __CPROVER_assume(r < V_MAXSZ); return r; }
+/* nlohmann::json::value(key, default): throws type_error.302 when the key is present with a value of another type */
+static inline int v_json_value_int(const struct v_json *j, int dflt) { (void)j; _Bool t; if (t) { __exc = V_EXC_JSON_TYPE; return dflt; } int r; return r; }
 static inline struct v_json *v_json_index(const struct v_json *j) { (void)j; return &v_json_any; }
 #endif
